@@ -85,6 +85,7 @@ def oracle(name, ib, mb, meta):
         if d['tos'] == 0 and d['opc'] == 8: pend[ctx] = True
         if d['tos'] == 0 and d['opc'] == 8 and len(rec) == 1 and live > 1:
             fails.append((i, 'after the Reset %d allocations are live; only the interface record may remain' % live)); break
+    if meta.get('explored'): return fails      # the growth comparisons below presuppose the shape of their family
     if name.startswith('rep_') and len(lives) >= 60:
         # the same request block repeated: whatever is cached is cached after the first rounds; growth afterwards is a leak
         third = len(lives) // 3
